@@ -12,7 +12,8 @@ EXPLANATION = (
     "set_val (write-funnel rule); like=/template state is deep-copied (sequences of conversions do not leak modes). Residual: value-level agreement on inexact doubles."
     " Added after the third round of seeded changes: resize makes no cast of its own while re-scaling; the dtype-string reader/writer agreement (C12.R1/R2) and the element view's configuration (C17.R6) are included as conversion routes."
     ' Added after the fourth round of seeded changes: resize restores scaled objects from the read map computed with the old fraction length (C17.R2); C20.R8 objects carry only the documented attributes and no function writes module-level containers (no caches / memos that go stale).'
-    ' Added after the fifth round of seeded changes: C20.R8 also forbids mutable default arguments and private attributes hung on operands (x._cache, x.__dict__[...]).')
+    ' Added after the fifth round of seeded changes: C20.R8 also forbids mutable default arguments and private attributes hung on operands (x._cache, x.__dict__[...]).'
+    ' Added after the sixth round of seeded changes: C10.R5 value-type domain: no assignment stores x.dtype.type (a NumPy scalar class never compares equal to int, which silences the integer-value-type guards); C10.R2 also covers functions.fxp_like.')
 ASSUMPTIONS = ["a[None] inserts an axis (NumPy lemma)", "2**k with negative k is an exact dyadic double"]
 TRUSTED = ["CPython ast", "scale typing rules of DESIGN A6"]
 
